@@ -35,6 +35,9 @@ def native_dataset(v, rng, with_wind, lonlat_time, nt=2, ns=2):
     lat = np.array([-40.0, 12.25][:ns])
     u = np.array([[3.0, -4.0], [0.0, 5.0]])[:nt, :ns]
     w = np.array([[4.0, 3.0], [-2.0, 0.0]])[:nt, :ns]
+    # winds of every strength: a light breeze (centimetres per second) or a storm has a direction like any other wind
+    scale = rng.choice((1.0, 1.0, 0.03, 0.01, 9.0))
+    u, w = u * scale, w * scale
     if conv == "ww3":
         ds = xr.Dataset({"efth": (("time", "station", "frequency", "direction"), data)},
                         coords={"time": time, "station": np.arange(ns), "frequency": FREQ(F), "direction": np.array(D, float)})
